@@ -30,12 +30,12 @@ KNOWN = common.known_for("C07")  # entries live in /verif/known_findings.json
 
 PARTIAL = (
     "CPython aliasing outside the modelled object store (two Exec objects holding the same ByteVec by reference) "
-    "is not expressible in the model; ByteVec.concretize, __eq__ and the int/bool conversions of set_word / unbox_int of "
+    "is not expressible in the model; ByteVec.concretize, __eq__ (compared with the flat reference for concrete content and for copies only) and the int/bool conversions of set_word / unbox_int of "
     "get_word are exercised by the runs (value forms) but not modelled beyond the bytes they denote; z3's "
     "simplify/Concat/Extract are trusted to preserve denotation, and the kind (bytes vs BitVecRef) z3 gives a symbolic "
     "chunk whose bytes are all constant is not modelled (compared modulo that); the memory-instruction layer does not "
     "model the MAX_MEMORY_SIZE guards (OutOfGasError), symbolic offsets / sizes (NotConcreteError) and the "
-    "symbolic-offset branch of CODECOPY; the SEVM runs observe the END state of every reported path, not every step"
+    "symbolic-offset branch of CODECOPY; the SEVM runs observe the END state of every reported path plus the MLOAD / MSIZE results the program left on the stack between its writes, not every step"
 )
 ASSUMPTIONS = [
     "values handed to a mutator are never the receiver object itself (v.set_slice(a, b, v) iterates a dict it mutates)",
@@ -44,6 +44,9 @@ ASSUMPTIONS = [
     "the three translators render the Python expressions they accept faithfully (translate/pyexpr.py; py_or / py_if_not_none in the generated header are Python's `x or d` / `x if x is not None else d` on int-or-None)",
 ]
 ALIAS_NOTE = "aligned set_slice(a, b, w) with w a ByteVec stores w itself; a later w.set_byte shows through the holder and every copy() of it"
+
+# observation steps (every public read of a ByteVec); they may stand anywhere in a history, also repeated between writes
+QUERIES = ("get", "unwrap", "word", "len", "slice", "item", "eq", "eqcopy")
 
 SYM_BASE = 1000  # code of byte j of symbol k = SYM_BASE * (k + 1) + j
 NVAL = 2
@@ -136,6 +139,24 @@ def spec_run(case):
             out.append(("q", list(objs[st[1]])))
         elif k == "word":
             out.append(("q", fa_slice(objs[st[1]], st[2], st[2] + 32)))
+        elif k == "len":
+            out.append(("q", [len(objs[st[1]])]))
+        elif k == "slice":
+            out.append(("q", fa_slice(objs[st[1]], st[2], st[3])))
+        elif k == "item":
+            l = objs[st[1]]
+            out.append(("q", fa_slice(l, 0 if st[2] is None else st[2], len(l) if st[3] is None else st[3])))
+        elif k in ("eq", "eqcopy"):
+            a, b = (objs[st[1]], objs[st[2]]) if k == "eq" else (objs[st[1]], objs[st[1]])
+            if k == "eqcopy":
+                want = True        # same chunks: the same bytes, symbolic ones included
+            elif all(c < SYM_BASE for c in a + b):
+                want = a == b
+            elif len(a) != len(b):
+                want = False
+            else:
+                want = None        # symbolic content in differently cut chunks: whether __eq__ can tell is not specified
+            out.append(("eq", want))
         else:
             raise ValueError(k)
     return out
@@ -280,10 +301,22 @@ def impl_run_inner(case):
     for st in case["steps"]:
         k = st[0]
         try:
-            if k in ("get", "unwrap", "word"):
+            if k in QUERIES:
                 o = objs[st[1]]
-                if k == "get":
-                    kind, items = result_items(o.get_byte(st[2]))
+                if k == "len":
+                    out.append(("q", 0, [len(o)]))
+                elif k == "slice":
+                    kind, items = result_items(o.slice(st[2], st[3]).unwrap())
+                    out.append(("q", kind, items))
+                elif k == "item":
+                    kind, items = result_items(o[slice(st[2], st[3])].unwrap())
+                    out.append(("q", kind, items))
+                elif k == "eq":
+                    out.append(("eq", bool(o == objs[st[2]])))
+                elif k == "eqcopy":
+                    out.append(("eq", bool(o == o.copy())))
+                elif k == "get":
+                    kind, items = result_items(o[st[2]] if len(st) > 3 and st[3] == "item" else o.get_byte(st[2]))
                     if isinstance(items, int):
                         items = [items]
                     if kind == 1 and len(items) == 1:
@@ -400,6 +433,13 @@ def enc_case(case):
             out += [8, st[1]]
         elif k == "word":
             out += [9, st[1], st[2]]
+        elif k == "len":
+            out += [11, st[1]]
+        elif k == "slice":
+            out += [12, st[1], st[2], st[3]]
+        elif k == "item":
+            out += [13, st[1], 0 if st[2] is None else 1, st[2] or 0, 0 if st[3] is None else 1, st[3] or 0]
+        # eq / eqcopy: compared with the flat reference only
     return out
 
 
@@ -415,14 +455,17 @@ def dec_model(case, res):
 
     try:
         for st in case["steps"]:
+            if st[0] in ("eq", "eqcopy"):
+                out.append(("eq", None))
+                continue
             n = next(it)
             body = take(n)
             if body == [-1]:
                 out.append(("exc", "model: dangling or cyclic store"))
                 break
             bi = iter(body)
-            if st[0] in ("get", "unwrap", "word"):
-                if st[0] == "get":
+            if st[0] in QUERIES:
+                if st[0] in ("get", "len", "slice", "item"):
                     out.append(("q", None, body))
                 else:
                     out.append(("q", body[0], body[2:2 + body[1]]))
@@ -467,6 +510,8 @@ def compare_model(case, impl, model):
         a, m = impl[i], model[i]
         if a[0] == "exc" or m[0] == "exc":
             return {"step": i, "observable": "exception", "implementation": str(a)[:300], "model": str(m)[:300]}
+        if a[0] == "eq" or m[0] == "eq":
+            continue
         if a[0] == "q":
             kind_ok = True
             if st[0] in ("unwrap", "word"):
@@ -495,6 +540,10 @@ def compare_spec(case, impl, spec):
         a, s = impl[i], spec[i]
         if a[0] == "exc":
             return {"step": i, "observable": "exception", "implementation": a[1]}
+        if a[0] == "eq":
+            if s[1] is not None and a[1] != s[1]:
+                return {"step": i, "observable": st[0], "implementation": a[1], "spec": s[1]}
+            continue
         if a[0] == "q":
             if not same_items(s[1], a[2]):
                 return {"step": i, "observable": st[0], "implementation": str(a[2])[:300], "spec": str(s[1])[:300]}
@@ -645,6 +694,34 @@ class Gen:
         if b > a and n == b - a:
             self.len[o] = max(self.len[o], b)
 
+    def observe(self, o=None):
+        """1..3 observations of one live object, standing between writes: each must show the flat array as it is now"""
+        r = self.r
+        if not self.len:
+            return
+        o = r.choice(range(len(self.len))) if o is None else o
+        n = self.len[o]
+        for _ in range(r.choice([1, 1, 2, 3])):
+            x = r.random()
+            off = r.choice(self.grid + [max(0, n - 1), n])
+            if x < 0.4:
+                self.steps.append(["unwrap", o])
+            elif x < 0.5:
+                self.steps.append(["len", o])
+            elif x < 0.62:
+                self.steps.append(["get", o, off] + (["item"] if r.random() < 0.3 else []))
+            elif x < 0.72:
+                self.steps.append(["word", o, off])
+            elif x < 0.82:
+                b = r.choice(self.grid + [n, n + 2])
+                self.steps.append(["slice", o, off, b])
+            elif x < 0.9:
+                self.steps.append(["item", o, r.choice([None, 0, off]), r.choice([None, 0, n, r.choice(self.grid)])])
+            elif x < 0.95:
+                self.steps.append(["eqcopy", o])
+            else:
+                self.steps.append(["eq", o, r.choice(range(len(self.len)))])
+
     def reads(self):
         r = self.r
         for o in range(len(self.len)):
@@ -678,6 +755,11 @@ def gen_random(r, n, maxlen, tag):
         g.len.append(0)
         for _ in range(r.randint(2, maxlen)):
             g.step()
+            if r.random() < 0.45:
+                # observe between writes: mostly the object just written, sometimes any other
+                last = g.steps[-1]
+                recv = last[1] if last[0] in ("append", "setbyte", "setslice", "setword") else None
+                g.observe(recv if r.random() < 0.7 else None)
         g.reads()
         cases.append(g.case(tag))
     return cases
@@ -707,7 +789,11 @@ def gen_exhaustive(grid, depth, with_sym=True):
     cases = []
     for d in range(1, depth + 1):
         for seq in itertools.product(range(len(ops)), repeat=d):
-            steps = list(prefix) + [ops[i](k) for k, i in enumerate(seq)]
+            # the whole content and the length are observed after EVERY write (so that each write meets a sequence
+            # that has just been observed), then everything at the end
+            steps = list(prefix) + [["unwrap", 0]]
+            for k, i in enumerate(seq):
+                steps += [ops[i](k), ["unwrap", 0], ["len", 0], ["get", 0, grid[1], "item"]]
             n = max(grid) + 2
             steps += [["get", 0, off] for off in range(0, n + 1)] + [["unwrap", 0], ["word", 0, 0], ["copy", 0, "state"], ["sliceof", 0, grid[1], n, "state"]]
             cases.append({"tag": "exhaustive", "steps": steps})
@@ -761,6 +847,23 @@ CORPUS += [
         ["setslice", 3, 1, 7, ["slice", 2, 0, 6], "call"],
         ["get", 0, 5], ["get", 4, 5], ["unwrap", 0], ["unwrap", 4], ["unwrap", 3], ["word", 4, 0],
     ]},
+    # observations between writes: a byte written, the whole read, the SAME byte overwritten (its chunk is exactly one byte
+    # long: nothing is split, no fragment is stored), the whole read again, twice; then the other reads, a copy, and a write
+    # through an aligned one-chunk set_slice / set_word / append after a read
+    {"tag": "corpus", "steps": [
+        ["new"], ["unwrap", 0], ["len", 0],
+        ["setbyte", 0, 0, 0x11, "int", "call"], ["setslice", 0, 1, 4, ["leaf", 0, [0x61, 0x62, 0x63], 0, 3, "raw"], "call"],
+        ["unwrap", 0], ["eqcopy", 0],
+        ["setbyte", 0, 0, 0x22, "int", "call"], ["unwrap", 0], ["unwrap", 0], ["get", 0, 0], ["get", 0, 0, "item"], ["len", 0],
+        ["slice", 0, 0, 2], ["item", 0, None, 2], ["word", 0, 0], ["eqcopy", 0],
+        ["copy", 0], ["eq", 0, 1],
+        ["setbyte", 0, 0, 0x33, "bytes", "setitem"], ["unwrap", 0], ["unwrap", 1], ["eq", 0, 1],
+        ["setslice", 0, 1, 4, ["leaf", 1, [code(0, j) for j in range(3)], 0, 3, "raw"], "call"], ["unwrap", 0], ["eqcopy", 0],
+        ["setslice", 0, 1, 4, ["leaf", 0, [1, 2, 3], 0, 3, "raw"], "setitem"], ["unwrap", 0],
+        ["append", 0, ["leaf", 0, [9], 0, 1, "raw"]], ["unwrap", 0], ["len", 0],
+        ["setword", 0, 4, ["leaf", 0, list(range(32)), 0, 32, "raw"]], ["unwrap", 0],
+        ["setword", 0, 4, ["leaf", 0, list(range(32, 64)), 0, 32, "int"]], ["unwrap", 0], ["word", 0, 4], ["len", 0],
+    ]},
     {"tag": "corpus", "steps": [
         ["new"], ["new"], ["new"],
         ["append", 1, ["leaf", 0, [0x11, 0x12], 0, 2, "raw"]],
@@ -811,6 +914,13 @@ def gen_cases(tier, r):
 
 def classify(case, impl):
     kinds = set()
+    seen_obs = False
+    for st in case["steps"]:
+        if st[0] in QUERIES:
+            seen_obs = True
+            kinds.add("obs-" + st[0])
+        elif seen_obs and st[0] in ("append", "setbyte", "setslice", "setword"):
+            kinds.add("write-after-observation")
     prev = None
     for st, o in zip(case["steps"], impl):
         if o[0] != "step":
@@ -979,6 +1089,21 @@ def mem_layer(rep, exe, r, tier):
         model = [[] for _ in cases]
         for i, x in zip(owner, res):
             model[i].append(c07_mem.dec_model(x))
+        # the observations between the writes: the model run on the instructions before each of them
+        ocalls, oown = [], []
+        for i, (c, (a, cc)) in enumerate(zip(cases, built)):
+            for j, v in enumerate(vs[i]):
+                for e in c07_mem.enc_observations(c, a, cc, v):
+                    ocalls.append(("c07_mem", e))
+                    oown.append((i, j))
+        ores = Model(exe).parallel_batch(ocalls) if ocalls else []
+        per = {}
+        for key, x in zip(oown, ores):
+            per.setdefault(key, []).append(x)
+        for i in range(len(cases)):
+            for j, v in enumerate(vs[i]):
+                if model[i][j][0] == "ok":
+                    model[i][j] = model[i][j] + (c07_mem.dec_observations(v, per.get((i, j), [])),)
         # the code a creation deploys (only where the instruction sequence reaches the creation)
         cr_in = [(i, c07_mem.enc_created(c, a, cc)) for i, (c, (a, cc)) in enumerate(zip(cases, built))
                  if c07_mem.spec_created(c, a, cc) is not None]
@@ -1055,7 +1180,7 @@ def run(rep, tier):
         for k in kinds or ["plain"]:
             rep.count("case_kind", k)
         rep.count("tag", c["tag"])
-        rep.count("steps", min(len([s for s in c["steps"] if s[0] not in ("get", "unwrap", "word")]), 40) // 4 * 4)
+        rep.count("steps", min(len([s for s in c["steps"] if s[0] not in QUERIES]), 40) // 4 * 4)
         rep.case(short(c), nontrivial=bool(kinds & {"general", "aligned", "aligned-nested", "setbyte-inside", "overlapping-self-copy", "split-nested"}))
         d = compare_spec(c, impl[i], spec_run(c))
         if d is not None:
@@ -1096,7 +1221,7 @@ def run(rep, tier):
         trusted_base=common.TRUSTED_BASE_COMMON,
         assumptions=ASSUMPTIONS,
         partial=PARTIAL,
-        rule="(1) ByteVec store: cases = sequences of steps over a store of ByteVec objects (new, copy, slice kept as object, append, set_byte, set_slice, set_word; values = bytes / BitVecVal / int / HalmosBitVec / fresh z3 symbols / Chunk windows into longer data / slices of the receiver or of another object / a whole ByteVec object; plain calls, the __setitem__ sugar with explicit and omitted bounds, the State wrappers of sevm.py), followed by get_byte on a grid, unwrap and get_word of every object; corpus, exhaustive short sequences, then seeded random sequences over per-case sub-grids of [0,1,2,30,31,32,33,63,64,65] so that writes land exactly on existing chunk boundaries. After EVERY step EVERY live object is compared (raised?, len, recursive chunk layout [(key,len,kind,start,data_len)], flat content; symbolic bytes by identity, else under 2 valuations) with the extracted heap model and with the flat reference. Generated cases respect the isolation proviso (an object passed whole is never a receiver afterwards). Non-trivial = some write took the aligned or general path of set_slice, split a chunk with set_byte, or was an overlapping self copy. (2) slice sugar: bv[start:stop] = bytes and bv[start:stop] over a grid of optional bounds (omitted, explicit 0, inside, at and beyond the end). (3) memory instructions: programs assembled from 1..7 of MSTORE (PUSH32 or CALLDATALOAD value) / MSTORE8 / MLOAD+MSTORE / CALLDATACOPY / CODECOPY / EXTCODECOPY (account with code, with empty code, without account) / RETURNDATACOPY (in bounds, at the end, beyond) / MCOPY (overlapping) / message calls (STATICCALL, CALL, DELEGATECALL, CALLCODE; callee = 0..3 instructions then RETURN or REVERT of a window of its memory, possibly halting; output area smaller / equal / larger than the returned data) / at most one creation (CREATE, CREATE2: the init code = 0..3 instructions then RETURN or REVERT is first written to memory with MSTOREs; it reads its EMPTY calldata and its own code), optionally a JUMPI on the symbolic CALLVALUE forking the path (often on a still empty memory) and a final RETURN / REVERT; calldata = concrete bytes and z3 symbols; offsets and sizes from a grid around 0, 32, 64 and the current ends. The real SEVM runs the program; for every reported path the final memory (length, recursive chunk layout, content), the returndata buffer, MSIZE, the output data and the code of the account a creation deployed are compared with the flat EVM semantics (failing input) and with the extracted MemOpsModel (broken tie). Non-trivial = the path ran to its end through >= 2 instructions; distinct by hash of the case",
+        rule="(1) ByteVec store: cases = sequences of steps over a store of ByteVec objects (new, copy, slice kept as object, append, set_byte, set_slice, set_word, and -- anywhere between the writes, also repeated -- observations of any live object by every public read: unwrap, len, get_byte, v[i], slice, v[a:b] with optional bounds, get_word, == with a copy / another object; in the exhaustive sequences the whole content and the length are observed after EVERY write; values = bytes / BitVecVal / int / HalmosBitVec / fresh z3 symbols / Chunk windows into longer data / slices of the receiver or of another object / a whole ByteVec object; plain calls, the __setitem__ sugar with explicit and omitted bounds, the State wrappers of sevm.py), followed by get_byte on a grid, unwrap and get_word of every object; corpus, exhaustive short sequences, then seeded random sequences over per-case sub-grids of [0,1,2,30,31,32,33,63,64,65] so that writes land exactly on existing chunk boundaries. After EVERY step EVERY live object is compared (raised?, len, recursive chunk layout [(key,len,kind,start,data_len)], flat content; symbolic bytes by identity, else under 2 valuations) with the extracted heap model and with the flat reference. Generated cases respect the isolation proviso (an object passed whole is never a receiver afterwards). Non-trivial = some write took the aligned or general path of set_slice, split a chunk with set_byte, or was an overlapping self copy. (2) slice sugar: bv[start:stop] = bytes and bv[start:stop] over a grid of optional bounds (omitted, explicit 0, inside, at and beyond the end). (3) memory instructions: programs assembled from 1..7 of MSTORE (PUSH32 or CALLDATALOAD value) / MSTORE8 / MLOAD+MSTORE / CALLDATACOPY / CODECOPY / EXTCODECOPY (account with code, with empty code, without account) / RETURNDATACOPY (in bounds, at the end, beyond) / MCOPY (overlapping) / MLOAD and MSIZE observations between the writes, left on the stack / message calls (STATICCALL, CALL, DELEGATECALL, CALLCODE; callee = 0..3 instructions then RETURN or REVERT of a window of its memory, possibly halting; output area smaller / equal / larger than the returned data) / at most one creation (CREATE, CREATE2: the init code = 0..3 instructions then RETURN or REVERT is first written to memory with MSTOREs; it reads its EMPTY calldata and its own code), optionally a JUMPI on the symbolic CALLVALUE forking the path (often on a still empty memory) and a final RETURN / REVERT; calldata = concrete bytes and z3 symbols; offsets and sizes from a grid around 0, 32, 64 and the current ends. The real SEVM runs the program; for every reported path the final memory (length, recursive chunk layout, content), the returndata buffer, MSIZE, the output data and the code of the account a creation deployed are compared with the flat EVM semantics (failing input) and with the extracted MemOpsModel (broken tie). Non-trivial = the path ran to its end through >= 2 instructions; distinct by hash of the case",
     )
 
 
